@@ -7,7 +7,7 @@ Definition hash_ok (c : string * N) : bool :=
 
 (* ---- histories ---- *)
 (* operation: (opcode, index into the name pool, value); opcodes 0 insert 1 update 2 search 3 has
-   4 delete 5 store+load 6 rewrite+load *)
+   4 delete 5 store+load 6 rewrite+load 7 write in place (no reload) 8 store (no reload) *)
 Definition cop := (N * N * N)%type.
 
 Definition decode_op (pool : list bytes) (o : cop) : op :=
@@ -20,7 +20,9 @@ Definition decode_op (pool : list bytes) (o : cop) : op :=
   | 3 => OHas n
   | 4 => ODelete n
   | 5 => OStoreLoad
-  | _ => ORewrite
+  | 6 => ORewrite
+  | 7 => OWriteAt
+  | _ => OStore
   end.
 
 (* result codes: 0 err, 1 ok, 2 not found, 3 false, 4 true, 5 + (8-byte id as LE number) found *)
